@@ -63,12 +63,7 @@ def check(ctx):
                     if not okk:
                         ctx.violation("R-C03.2", f"kind:{m}:{tb}:{kind}", f"{m} files tokens of {tb} under `{kind}` (expected `{KIND_OF_TABLE[tb]}`): the specifier ends up in the wrong Decl field", file=px.rel, function=f"CParser.{m}", line=c.lineno)
                 if "type" in kvals:
-                    sets = [s for s in br.body if isinstance(s, ast.Assign) and any(isinstance(tg, ast.Name) and tg.id == "saw_type" for tg in s.targets) and isinstance(s.value, ast.Constant) and s.value.value is True]
-                    oks = bool(sets)
-                    ctx.oblige("R-C03.2", f"{m}: saw_type recorded after `{S.unparse(c.args[1])[:40]}`", oks)
-                    if not oks:
-                        ctx.violation("R-C03.2", f"saw_type:{m}:{S.unparse(c.args[1])[:50]}", f"{m} appends a type specifier ({S.unparse(c.args[1])[:60]}) without setting saw_type: a following typedef name is then taken as a second type specifier instead of the declared identifier "
-                                      "(e.g. `struct S T = 0;` with T a typedef name)", file=px.rel, function=f"CParser.{m}", line=c.lineno)
+                    saw_type_rule(ctx, "R-C03.2", px, m, br, c)
         kinds_by_method[m] = kinds
     ctx.require_instances("R-C03.2", 18)
     # ---- R-C03.3 --------------------------------------------------------------------
@@ -82,6 +77,33 @@ def check(ctx):
     ctx.assumptions += ["the splice loops of _type_modify_decl / _fix_decl_name_type / fix_atomic_specifiers are not proved correct for arbitrary derivation sequences (shape analysis would be needed)",
                         "sa/wiring_ref.json was reviewed against C99 6.7.5"]
     ctx.trusted += ["sa/wiring_ref.json", "E1 token-type sets"]
+
+
+def saw_type_rule(ctx, rid, px, m, br, c):
+    """the branch `br` of specifier loop `m` appends a type specifier through call `c`: it must record saw_type = True"""
+    sets = [s for s in br.body if isinstance(s, ast.Assign) and any(isinstance(tg, ast.Name) and tg.id == "saw_type" for tg in s.targets) and isinstance(s.value, ast.Constant) and s.value.value is True]
+    oks = bool(sets)
+    ctx.oblige(rid, f"{m}: saw_type recorded after `{S.unparse(c.args[1])[:40]}`", oks)
+    if not oks:
+        ctx.violation(rid, f"saw_type:{m}:{S.unparse(c.args[1])[:50]}", f"{m} appends a type specifier ({S.unparse(c.args[1])[:60]}) without setting saw_type: a following typedef name is then taken as a second type specifier instead of the declared identifier "
+                      "(e.g. `struct S T = 0;` with T a typedef name)", file=px.rel, function=f"CParser.{m}", line=c.lineno)
+
+
+def type_specifier_branches(px, m):
+    """(branch, call) pairs of specifier loop m whose _add_declaration_specifier call files under kind 'type'"""
+    fn = px.method("CParser", m)
+    out = []
+    for br in ast.walk(fn):
+        if not isinstance(br, ast.If):
+            continue
+        calls = [c for s in br.body for c in ast.walk(s) if isinstance(c, ast.Call) and isinstance(c.func, ast.Attribute) and c.func.attr == "_add_declaration_specifier"]
+        for c in calls:
+            if _nearest_if(c) is not br:
+                continue
+            kexpr = c.args[2] if len(c.args) > 2 else next((k.value for k in c.keywords if k.arg == "kind"), None)
+            if "type" in _const_values(kexpr, fn):
+                out.append((br, c))
+    return out
 
 
 def _const_values(e, fn, depth=0):
